@@ -18,7 +18,7 @@ func isTimeTime(t types.Type) bool {
 }
 
 func checkC17(c *Ctx) {
-	c.Explanation = "Decides a non-interference statement: the only way the handler's start time may influence the state that the time computation reads is through the week quantiser (the function that maps an instant to 00:00:00 UTC of the Sunday on or before it).  Source = the startTime parameter of handler.New; sanitiser = results of the quantiser; sinks = every Handler field stored by New.  Any flow from the source to a sink that bypasses the quantiser makes the reported times depend on where in the week the start time lies and is reported.  Also checks that the quantiser really truncates to midnight UTC of a Sunday (time.Date(...,0,0,0,0,UTC) after a loop that stops on Weekday()==Sunday) and that all four start-of-week fields are derived from it.  (R4) every successful Glonass result is the stored start of week plus the day and millisecond offsets of the timestamp: no special case re-bases a time on the handler's initial day state. (R6) from handler.New back to the entry points every caller hands on its own start-time parameter (or time.Now()) unchanged."
+	c.Explanation = "Decides a non-interference statement: the only way the handler's start time may influence the state that the time computation reads is through the week quantiser (the function that maps an instant to 00:00:00 UTC of the Sunday on or before it).  Source = the startTime parameter of handler.New; sanitiser = results of the quantiser; sinks = every Handler field stored by New.  Any flow from the source to a sink that bypasses the quantiser makes the reported times depend on where in the week the start time lies and is reported.  Also checks that the quantiser really truncates to midnight UTC of a Sunday (time.Date(...,0,0,0,0,UTC) after a loop that stops on Weekday()==Sunday) and that all four start-of-week fields are derived from it.  (R4) every successful Glonass result is the stored start of week plus the day and millisecond offsets of the timestamp: no special case re-bases a time on the handler's initial day state. (R6) from handler.New back to the entry points every caller hands on its own start-time parameter (or time.Now()) unchanged. (R7) no use of the machine's clock reachable from New or the decoder. (R8) inside New the quantiser's argument is the start time itself after zone conversions and a shift by an amount independent of it: no Round/Truncate/AddDate on the way."
 	c.NotDecided = "that two instants of the same constellation week always quantise to the same Sunday once the leap-second shift is applied (calendar arithmetic; exercised by TestGetLastSundayUTC); the conversion arithmetic itself (C06)."
 	P := c.P
 	newFn := P.Func("rtcm/handler", "New")
@@ -224,6 +224,61 @@ func checkC17(c *Ctx) {
 	// R7: the week is taken from the start time, never from the machine's clock (rule S9 of C06)
 	if gm := c.P.Func("rtcm/handler", "(*Handler).GetMessage"); gm != nil {
 		ruleWallClockFree(c, "C17-R7", []*ssa.Function{newFn, gm})
+	}
+	// R8: inside New the instant handed to the quantiser is the start time itself in another zone, shifted
+	// by an amount that does not depend on it (the leap-second offsets): no rounding, truncation or
+	// calendar arithmetic in between (which moves instants near a week boundary across it)
+	{
+		var stParam *ssa.Parameter
+		for _, prm := range newFn.Params {
+			if isTimeTime(prm.Type()) {
+				stParam = prm
+			}
+		}
+		nq := 0
+		eachInstr(newFn, func(ins ssa.Instruction) {
+			call, ok := ins.(*ssa.Call)
+			if !ok || call.Call.StaticCallee() != quant || len(call.Call.Args) != 1 {
+				return
+			}
+			nq++
+			v := call.Call.Args[0]
+			why := ""
+			for depth := 0; depth < 8 && why == ""; depth++ {
+				v = trivialPhi(v)
+				if v == ssa.Value(stParam) {
+					break
+				}
+				cl, isCall := v.(*ssa.Call)
+				if !isCall || cl.Call.StaticCallee() == nil {
+					why = "the quantiser's argument is not derived from the start time by method calls only"
+					break
+				}
+				switch calleeFullName(cl.Call.StaticCallee()) {
+				case "(time.Time).In", "(time.Time).UTC", "(time.Time).Local":
+					v = cl.Call.Args[0]
+				case "(time.Time).Add":
+					if dependsOn(cl.Call.Args[1], func(x ssa.Value) bool { return x == ssa.Value(stParam) }) {
+						why = "the start time is shifted by an amount that depends on the start time itself"
+					}
+					v = cl.Call.Args[0]
+				default:
+					why = "the start time passes through " + calleeFullName(cl.Call.StaticCallee()) + " before it is quantised"
+				}
+			}
+			c.Check(why == "", "C17-R8", fmt.Sprintf("quantiser-input#%d", nq), call.Pos(), "the quantiser is given the start time itself, zone-converted and shifted by a fixed offset",
+				why+": an instant close to a week boundary can be moved into the neighbouring week")
+		})
+		if nq == 0 {
+			c.Fail("C17-R8", "quantiser-input", newFn.Pos(), "unresolved", "New does not call the quantiser")
+		}
+	}
+	// R9: each type's timestamp is converted on its own constellation's week state (the dispatch table of
+	// C06-S3): a type routed to another constellation's converter shares that constellation's history
+	if or, err := loadClassOracle(c.Verifdir); err == nil {
+		checkTimeDispatch(c, NewTables(P), or, "C17-R9")
+	} else {
+		c.Fail("C17-R9", "oracle", token.NoPos, "unresolved", err.Error())
 	}
 	c.MinInstances("C17-R6", 2)
 	c.MinInstances("C17-R4", 1)
